@@ -130,32 +130,33 @@ type Machine struct {
 	netLog     []Value
 	known      map[string]bool // label|class entries that are known findings
 
-	poolVC        map[*Value][]int
-	wgStates      map[*Value]*wgState
-	hashBuf       map[*Value][]*Term
-	atomVC        map[*Value][]int
-	tickers       map[*Value]*tickerState
-	shadow        map[*Value]*shadow
-	maxTicks      int
-	raceCheck     bool
-	raceReported  bool
-	selectFork    bool
-	eventMode     *eventRecorder
-	model         map[string]uint64
-	modelMemo     map[*Term]uint64
-	noModelGuide  bool
-	decided       map[*Term]bool
-	sharedLog     []*Term
-	absBuf        bool
-	absBufs       map[*Value]Str
-	udps          map[*Value]*udpState
-	sinks         map[string][]*udpState
-	sinkCount     int
-	hashInjective bool
-	opaqueHash    map[string]*Term
-	schedOnly     []string
-	promVecs      map[*Value]*promVec
-	promMetrics   map[*Value]*promMetric
+	poolVC         map[*Value][]int
+	wgStates       map[*Value]*wgState
+	hashBuf        map[*Value][]*Term
+	atomVC         map[*Value][]int
+	tickers        map[*Value]*tickerState
+	shadow         map[*Value]*shadow
+	maxTicks       int
+	raceCheck      bool
+	raceReported   bool
+	selectFork     bool
+	eventMode      *eventRecorder
+	model          map[string]uint64
+	modelMemo      map[*Term]uint64
+	noModelGuide   bool
+	decided        map[*Term]bool
+	sharedLog      []*Term
+	absBuf         bool
+	absBufs        map[*Value]Str
+	udps           map[*Value]*udpState
+	sinks          map[string][]*udpState
+	sinkCount      int
+	hashInjective  bool
+	opaqueHash     map[string]*Term
+	schedOnly      []string
+	promVecs       map[*Value]*promVec
+	promMetrics    map[*Value]*promMetric
+	promRegistered map[*Value]map[string]bool
 }
 
 type classDef struct {
